@@ -2,7 +2,7 @@
    ONLY statements. *)
 From PM.theories Require Import Base Expr Struct FrBCode Crc FrBCommon FrRtu FrBin FrSpecB.
 From PM.Generated Require Import GenFramerB.
-From PM.proofs Require Import Crc_proofs.
+From PM.proofs Require Import Crc_proofs FrB_rtu_proofs.
 Open Scope list_scope.
 Open Scope N_scope.
 
@@ -12,3 +12,24 @@ Theorem C07_check_is_bitwise_crc : forall bs k, wfb bs = true ->
   py_check_crc bs k = Ok (Z.of_N (swap16 (crc16_bitwise bs)) =? k)%Z.
 Proof. exact py_check_crc_spec. Qed.
 Print Assumptions C07_check_is_bitwise_crc.
+
+(* GATE, RTU: for EVERY receiver state (any buffer, any header content), every chunk and both
+   decoder tables: each message handed to the callback is justified by a prefix of the
+   buffered bytes that is exactly the specified ADU of that message (unit, PDU, bitwise
+   CRC-16 low byte first) — what the reference receiver accepts.  Hence no corruption,
+   truncation or extension of a frame is delivered unless the corrupted bytes themselves
+   contain a frame with a matching CRC. *)
+Theorem C07_gate_rtu : forall cfg st chunk st' ds x,
+  known_rules (cf_rules cfg) -> wfb (r_buf st ++ chunk) = true ->
+  rtu_recv cfg st chunk = (st', ds, x) ->
+  forall pdu uid, In (pdu, uid) ds ->
+    exists u rest, r_buf st ++ chunk = spec_adu_rtu u pdu ++ rest /\ uid = Z.of_N u /\
+                   crc_ok (spec_adu_rtu u pdu) = true /\ spec_rx_rtu (spec_adu_rtu u pdu) = Some (pdu, u).
+Proof. exact rtu_gate. Qed.
+Print Assumptions C07_gate_rtu.
+
+(* the gate is not vacuous: a valid frame IS delivered (C03_whole_frame_rtu) *)
+Example C07_nonvacuous :
+  let cfg := {| cf_dec := fun _ => DMsg; cf_rules := server_decoder; cf_units := [1%Z]; cf_single := false |} in
+  snd (fst (rtu_recv cfg rtu_init (spec_adu_rtu 1 [3; 0; 1; 0; 2]))) = [([3; 0; 1; 0; 2], 1%Z)] /\ known_rules (cf_rules cfg).
+Proof. split; [vm_compute; reflexivity | left; reflexivity]. Qed.
